@@ -543,6 +543,7 @@ func (vlog *valueLog) createVlogFile() (*logFile, error) {
 	if err := syncDir(vlog.dirPath); err != nil {
 		return nil, y.Wrapf(err, "createVlogFile")
 	}
+	vevent(10, vlog.dirPath, 0, 0) // verif: syncdir
 
 	vlog.filesLock.Lock()
 	vlog.filesMap[fid] = lf
